@@ -158,6 +158,18 @@ def _one_case_core(ctx, rs, scope, pred, tag):
     if sc_model != sc_impl:
         ctx.violation('c12-scopes-vs-model', f'get_scopes {sc_impl} differs from the model {sc_model}', replay=rep, found_input=False)
         return
+    # the loops EXTRACTED from the current source (Gen.S5toPcStep / Gen.S5getScopesStep, tools/listprog.py) run by the driver:
+    # implementation = generated = model (Oblig/Struct5ToPc.lean and Props/E2EToPc.lean are statements about these definitions)
+    t_gen = drv.ask(dict(op='s5_topc', **pay))
+    ctx.count('generated_loop_runs')
+    if t_gen != t_impl:
+        ctx.violation('c12-structure-vs-generated', f'to_pc structure differs from the loop extracted from the source\n impl     : {t_impl[:300]}\n generated: {t_gen[:300]}',
+                      replay=rep, found_input=False)
+        return
+    sc_gen = drv.ask(dict(op='s5_scopes', **pay))
+    if sc_gen != sc_impl:
+        ctx.violation('c12-scopes-vs-generated', f'get_scopes {sc_impl} differs from the loop extracted from the source {sc_gen}', replay=rep, found_input=False)
+        return
     # model value of the tree on a sample of queries vs implementation (ties C12 to the exact semantics)
     pay64 = C.clt_payload(clt)
     for r in range(0, len(pats), max(1, len(pats) // 40)):
